@@ -434,6 +434,15 @@ func (a *attribution) components(ji, di int) []string {
 		}
 	}
 	if len(owners) > 0 {
+		// an identifier carrying the port prefix of a shared object attached to this processor belongs to that
+		// shared object's per-processor plumbing (GetArchHeader / GetCPParams), whichever opcode makes it appear
+		if kd := kindFromIdent(d.Ident); kd != "" {
+			for _, x := range kindsOn(j, pi) {
+				if x == kd {
+					return []string{kd}
+				}
+			}
+		}
 		return owners
 	}
 	if len(ops) == 1 {
